@@ -128,4 +128,6 @@ NOTES = ("All checks are static analyses of /repo/discopy's source (python -m sa
          "Known findings: /verif/known_findings.json. Checker validation corpus: python -m sa.selftest. "
          "The thorough tier decides the same rules with the larger bounds where a rule is bounded (rewire widths 7, cartesian widths 5) and additionally runs the property's corpus of variants "
          "(semantic single edits that must be reported, behaviour-preserving rewrites that must stay silent) on scratch copies of /repo, recording the matrix under coverage.checker_validation; "
-         "tools/benign.py re-runs all checks on eight behaviour-preserving rewritings of the whole package.")
+         "tools/benign.py re-runs all checks on sixteen behaviour-preserving rewritings of the whole package; tools/refactor_eval.py --recheck re-runs them on the 120 behaviour-preserving "
+         "refactorings written by independent sub-agents (/verif/refactors, DESIGN.md section 16). Before any rule runs the parsed tree is normalised by equivalences that undo common refactorings "
+         "(sa/alpha.py, sa/helpers.py; tables regenerated by tools/mklocals.py after a change of /repo has been confirmed).")
